@@ -120,6 +120,19 @@ def check(P, rep):
             somes = [a for a in alts(args[1]) if variant_name(a) == 'Some']
             rep.check(all(core(a[3][0])[0] == 'call' and 'FromXdr>::from_xdr' in core(a[3][0])[1] and is_minter_bytes(a[3][0]) for a in somes) and bool(somes), 'C04.R4',
                       'execute:deploy:minter-term', 'the constructor\'s minter is the address decoded from the announced minter bytes', esite(g, e), fmt(args[1])[:200])
+    # who-may-act-on-a-delivery: only `execute` (behind the consumed gateway approval) turns a hub message into effects - a helper of the
+    # delivery path exported as an entry point, or a second delivery entry without the approval, is reported here
+    for cn_, en_ in P.all_entries():
+        if cn_ != CN or en_ == 'execute':
+            continue
+        g2 = P.graph(cn_, en_)
+        for e in state_effects(g2):
+            if within_entry(g2, e, ['execute']):
+                continue
+            ts = [v for v in e.d.values() if isinstance(v, tuple)] + [a for v in e.d.values() if isinstance(v, list) for a in v if isinstance(a, tuple)]
+            if any(find_decode(t_, 'ReceiveFromHub', lambda s_: True) is not None for t_ in ts):
+                rep.bad('C04.R1', '%s:acts-on-delivery-outside-execute' % en_,
+                        'a received hub message is acted on only by execute, behind the consumed gateway approval', esite(g2, e), e.describe()[:200])
     from rules.c16 import gateway_binding
     gateway_binding(P, rep, 'C04.R1')
     # "well-formed hub message": the codec clauses this statement relies on (strict decoding, tag/struct dispatch, field mapping, amount
